@@ -56,6 +56,7 @@ inductive Ev
   | rel (a : Actor) (counter : Nat) (nw : Nat) (empty : Bool)
   | reinit (n : Nat) (rc : Rc)
   | obsLock (v : Bool)
+  | obs (counter : Nat) (nw : Nat)      -- snapshot taken inside a critical section (at the futex-word store of the broadcast)
 deriving Repr
 
 structure St where
@@ -144,6 +145,7 @@ def step (s : St) : Ev → Option St
   | .rel a c nw e => stepRel s a c nw e
   | .reinit n rc => stepReinit s n rc
   | .obsLock v => if v = s.lock.isSome then some s else none
+  | .obs c nw => if c = s.counter ∧ nw = s.nw then some s else none
 
 def machine (kind : Actor → Kind) (nw : Nat) : Machine St Ev :=
   { init := init kind nw, step := step }
